@@ -32,6 +32,8 @@ PROPS = {
     "C05": model("TestC05Model", 2500, 15000, wire="TestC05Wire"),
     "C06": model("TestC06Model", 2500, 12000, wire="TestC06Wire"),
     "C07": model("TestC07Model", 2000, 10000, wire="TestC07Wire"),
+    "C08": {"level": "fault_enumeration", "assumptions": MODEL_ASSUME + ["wire driver: real http.Server + x/net/websocket + websocket.Handle with the production decorators over net.Pipe; net.Pipe has no buffering (stricter than TCP)", "a goroutine blocked on a sync.Mutex is not durably blocked for synctest: a wedge on a lock shows as a real-time timeout, which the driver re-runs alone and reports only if it does not terminate again"],
+            "parts": [H("TestC08Hostile", "W", 500, 6000, qs=2, ts=16, hang_is_violation=True), H("TestC08Burst", "Wburst", 1500, 10000, qs=2, ts=16, hang_is_violation=True)]},
     "C10": model("TestC10Model", 2500, 10000, wire="TestC10Wire"),
     "C11": model("TestC11Model", 2500, 15000, wire="TestC11Wire"),
     "C12": model("TestC12Model", 3000, 25000, wire="TestC12Wire"),
@@ -50,6 +52,8 @@ def _m(text, ref):
 META = {
     "C03": {"text": "Two oracles over generated multi-session histories (never-joining connections, switches, returns, ids valid only elsewhere, reused session ids): (a) the reference model - nothing a connection sends shows up in a session it is not in; (b) a differential (noninterference) oracle - for every session instance T the concrete trace is re-run on a fresh server keeping only the stints of connections while they are in T, and every stint's normalised message stream (session ids masked) must be identical. Exploration level: held on every generated history; no claim of absence.",
             "design_ref": "DESIGN.md 4 (C03)", "note": _N + " Receipts (one global queue by design) and signed latency are excluded from these scripts; session references that depend on which released id is reissued next are rewritten.", "technique": "differential / noninterference property-based testing (rapid): full history vs per-session projection, plus reference model"},
+    "C08": {"text": "Fault enumeration on the real stack: generated histories with hostile steps (undecodable/text/untimestamped frames, typed bodies that do not decode, pipelined bursts of 1-64 failing requests and up to 300 pings, absent sub-messages, non-finite/huge/subnormal coordinates, unknown types, silence, clients that stop reading, transport aborts) run over websocket.Handle with the production decorators on a fake clock with a 0.3-2 s idle timeout. After every step: no panic, exactly the connections the model says are ended (idle deadlines to the nanosecond; a client that keeps sending is not ended), departures as in C06, all other members' replicas and all sessions' server state untouched; at the end every handler returned, no connection/session goroutine is left, ws_connected_clients and session_count are back. A second part repeats pipelined bursts of failing requests thousands of times because the outcome depends on Go's randomised select.",
+            "design_ref": "DESIGN.md 4 (C08)", "note": "Trusted: reference model; net.Pipe instead of TCP (no kernel buffering); survival of the OS process itself is not covered by this part (in-process panics are recorded the way net/http would swallow them).", "technique": "model-based fault injection with rapid on the real connection handler in a synctest bubble; repeated-schedule search for select-dependent outcomes"},
     "C11": _m("Pose-heavy histories on the fake clock (sequence number in px, arbitrary float bit patterns, foreign/unknown/deleted entities, absent pose, deletions and switches while updates are pending): per frame exactly the latest update of each owned live entity is applied and relayed once to the others, nothing for dropped updates, and the stored pose is what joiners are handed.", "DESIGN.md 4 (C11)"),
     "C17": {"text": "Metamorphic relation: each generated history is run flag-free under the reference model, then its concrete trace is replayed on a fresh flag-free server and on a fresh server with flag set F (singles, empty, full, random subsets, unknown names; thorough: all 1024 subsets). Per connection and step the F stream must equal the flag-free stream minus exactly the classes F names, and the final server state must be identical. Exploration level.",
             "design_ref": "DESIGN.md 4 (C17)", "note": _N + " HAGALL_FEATURE_FLAGS parsing in cmd/main.go is outside this part.", "technique": "metamorphic property-based testing (rapid): flag-free run vs run under flag set F"},
